@@ -524,14 +524,23 @@ func ruleEntriesToModifyRequest(c *Ctx) {
 	runTable(c, tableSpec{
 		Rule: "TABLE-STAMPING", Fn: fi, Body: loop.Body.List, Construct: "per entry: operation type, id allocation, election stamping", Events: ev,
 		Atoms: map[string]int{aErr: 2, aID: 3, aParent: 2, aConn: 2, aMode: 2, aHas: 2},
+		// a request that is refused is dropped with its operation: whether the verb had already been written into the
+		// discarded operation is not observable
+		Outcome: func(p Path) string {
+			o := defaultOutcome(fi.Pkg.TypesInfo, fi.Decl, p)
+			if strings.HasPrefix(o, "ret(nil, err(") {
+				o = strings.NewReplacer(" effects[op←p0]", "", "effects[op←p0,", "effects[").Replace(o)
+			}
+			return o
+		},
 		Expected: func(v *Valuation) (string, bool) {
 			switch {
 			case !v.B(aErr):
 				return "ret(nil, err(plain))", true
 			case v.Ord(aID) != 0:
-				return "ret(nil, err(plain)) effects[op←p0]", true
+				return "ret(nil, err(plain))", true
 			case v.B(aParent):
-				return "ret(nil, err(plain)) effects[op←p0]", true
+				return "ret(nil, err(plain))", true
 			}
 			evs := []string{"op←p0", "count++", "id←recv.parent.opCount"}
 			if !v.B(aConn) && v.B(aMode) && v.B(aHas) {
